@@ -77,6 +77,24 @@ DoSubscribe(g, c, e, bad) ==
     /\ reg' = IF g = NoGroup THEN reg ELSE [reg EXCEPT ![g] = n]
     /\ obs' = [a |-> "Subscribe", err |-> "", id |-> n]
 
+\* n subscribe calls of the same group with the same epoch, distinct consumers
+\* cs[1..n], issued CONCURRENTLY (real goroutines released together).  Under
+\* consumersMu they take effect one after the other in some order: the one that
+\* comes last (the k-th) stays, every other one is closed by its successor.
+DoBurst(g, cs, e) ==
+  LET ex == reg[g]
+      n  == Len(cs) IN
+  IF ex # 0 /\ subs[ex].e > e THEN
+    /\ obs' = [a |-> "Burst", err |-> "stale", id |-> 0]
+    /\ UNCHANGED <<subs, reg>>
+  ELSE
+    \E k \in 1..n :
+      LET closedPrev == IF ex = 0 THEN subs ELSE [subs EXCEPT ![ex].open = FALSE]
+          new == [i \in 1..n |-> [g |-> g, c |-> cs[i], e |-> e, open |-> (i = k), loop |-> TRUE]] IN
+      /\ subs' = closedPrev \o new
+      /\ reg' = [reg EXCEPT ![g] = Len(subs) + k]
+      /\ obs' = [a |-> "Burst", err |-> "", id |-> n]
+
 \* subscription.Close()
 DoCancelByClient(s) ==
   /\ s \in Idx
@@ -136,6 +154,21 @@ P_Subscribe(g, c, e, bad) ==
        /\ g # NoGroup => ActiveOf(subs', g) = {n}
        /\ \A s \in Idx : Active(subs', s) => Active(subs, s)
        /\ \A s \in Idx : (subs[s].g # g \/ g = NoGroup) => (Active(subs', s) <=> Active(subs, s))
+
+\* concurrent subscribes of one group: afterwards at most one member is active
+\* (C13_OneActive), either all are refused (and nothing changed) or all exist;
+\* every previously active member of the group is cancelled; other groups are
+\* not disturbed
+P_Burst(g, cs, e) ==
+  IF Len(subs') = Len(subs) THEN
+    /\ SameSubs /\ reg' = reg
+    /\ NewerAround(g, e)
+  ELSE
+    /\ Len(subs') = Len(subs) + Len(cs)
+    /\ ~\E s \in ActiveOf(subs, g) : subs[s].e > e
+    /\ \A s \in Idx : subs[s].g = g => ~Active(subs', s)
+    /\ \A s \in Idx : subs[s].g # g => (Active(subs', s) <=> Active(subs, s))
+    /\ Cardinality(ActiveOf(subs', g)) = 1
 
 \* cancelling / ending a subscription never activates anything and never
 \* disturbs another subscription
